@@ -254,7 +254,7 @@ func apply(w *walk.Worker, ctx sdk.Context, e *graph.Edge, path []*graph.Edge, g
 	}
 	switch name {
 	case "publish":
-		if !deliver("C15", &stypes.MsgPublishReferencePayloadLink{Creator: creator, Key: util.CalculateHash(s.ref[graph.Str(act["r"])]), Value: s.link[graph.Str(act["l"])]}) {
+		if !deliver("C15", &stypes.MsgPublishReferencePayloadLink{Creator: creator, Key: s.linkKey(graph.Str(act["r"])), Value: s.link[graph.Str(act["l"])]}) {
 			return ctx, fs, true
 		}
 	case "store":
@@ -379,6 +379,22 @@ func short(s string) string {
 		return s[:40] + "..."
 	}
 	return s
+}
+
+// linkKey is the store key of a model key: the hash of the reference id, or - for the model's other keys "<ref>^U", "<ref>^S" -
+// a string that is no reference id's hash but as close to one as a signer can make it (upper case, trailing space).
+func (s *state) linkKey(name string) string {
+	if i := strings.Index(name, "^"); i >= 0 {
+		h := util.CalculateHash(s.ref[name[:i]])
+		switch name[i+1:] {
+		case "U":
+			return strings.ToUpper(h)
+		case "S":
+			return h + " "
+		}
+		return h + name[i:]
+	}
+	return util.CalculateHash(s.ref[name])
 }
 
 func Run(file string, workers int, budget time.Duration, walks, depth int, seed int64) (*walk.Result, error) {
